@@ -229,7 +229,8 @@ def diaRowTerm (rows cols : Nat) (fast : Bool) (d : Int × (Nat → R)) (row : N
 /-- the accumulation loops of `matmul_dia_dense_dense` into the buffer `t` (shape `L.rows × b.cols`): every position of
 the buffer is an entry (row, col) according to `t`'s memory order and receives the contributions of all stored diagonals -/
 def diaDenseCore (L : Dia R) (b t : Dense R) : Dense R :=
-  let fast := (L.rows == L.cols) && !b.fortran && !t.fortran
+  -- `strideC_in == 1` and `strideC_out == 1`: C order, or a single row
+  let fast := (L.rows == L.cols) && (!b.fortran || b.rows == 1) && (!t.fortran || L.rows == 1)
   { t with data := fun p =>
       if p < L.rows * b.cols then
         let row := if t.fortran then p % L.rows else p / b.cols
@@ -248,6 +249,42 @@ def matmulDiaDense [DecidableEq R] [OfNat R 1] (L : Dia R) (b : Dense R) (s : R)
     let t := diaDenseCore L b (Dense.ofFn L.rows b.cols b.fortran fun _ _ => 0)
     if s = 1 then t else { t with data := fun p => if p < L.rows * b.cols then s * t.data p else t.data p }
 end diaDense
+
+/-! ### `matmul_dense_dia_dense`: Dense @ Dia -/
+section denseDia
+variable {R : Type} [Add R] [Mul R] [OfNat R 0]
+
+/-- does stored diagonal `d` of the right operand (`rows × cols`) contribute to output column `c`, and from which row `k`
+of the right operand (= column of the left one)?  `fast`: the square-matrix fast track (`length = cols − |offset|`),
+otherwise `start_right = max(0, off)`, `end_right = min(cols, rows + off)`, `start_left = max(0, −off)` -/
+def diaColTerm (rows cols : Nat) (fast : Bool) (d : Int × (Nat → R)) (c : Nat) (arow : Nat → R) : R :=
+  let off := d.1
+  let startRight := max 0 off
+  let startLeft := max 0 (-off)
+  let length : Int := if fast then (cols : Int) - (Int.natAbs off : Nat) else min (cols : Int) ((rows : Int) + off) - startRight
+  let i := (c : Int) - startRight
+  if 0 ≤ i ∧ i < length then d.2 (startRight + i).toNat * arow (startLeft + i).toNat else 0
+
+def denseDiaCore (a : Dense R) (Rm : Dia R) (t : Dense R) : Dense R :=
+  -- `strideR_in == 1` and `strideR_out == 1`: Fortran order, or a single column
+  let fast := (Rm.rows == Rm.cols) && (a.fortran || a.cols == 1) && (t.fortran || Rm.cols == 1)
+  { t with data := fun p =>
+      if p < a.rows * Rm.cols then
+        let row := if t.fortran then p % a.rows else p / Rm.cols
+        let col := if t.fortran then p / a.rows else p % Rm.cols
+        t.data p + (Rm.diags.map fun d => diaColTerm Rm.rows Rm.cols fast d col (fun k => a.abs row k)).foldl (· + ·) 0
+      else t.data p }
+
+/-- `matmul_dense_dia_dense(left, right, scale, out)` -/
+def matmulDenseDia [DecidableEq R] [OfNat R 1] (a : Dense R) (Rm : Dia R) (s : R) (out : Option (Dense R)) : Dense R :=
+  match out with
+  | some o =>
+    if s = 1 then denseDiaCore a Rm o
+    else iaddDense o (denseDiaCore a Rm (Dense.ofFn a.rows Rm.cols a.fortran fun _ _ => 0)) s
+  | none =>
+    let t := denseDiaCore a Rm (Dense.ofFn a.rows Rm.cols a.fortran fun _ _ => 0)
+    if s = 1 then t else { t with data := fun p => if p < a.rows * Rm.cols then s * t.data p else t.data p }
+end denseDia
 
 /-! ### the dispatcher: a specialisation built from a registered one and conversions -/
 
